@@ -49,7 +49,8 @@ class NNSpacePartitioner:
         data = np.vstack((sample1, sample2))
         D, inverted_indices = np.unique(data, axis=0, return_inverse=True)
         self.D = D
-        v1, v2 = np.array_split(inverted_indices, 2)
+        inverted_indices = np.ravel(inverted_indices)
+        v1, v2 = inverted_indices[: len(sample1)], inverted_indices[len(sample1) :]
         v1_onehot = np.zeros(D.shape[0])
         v2_onehot = np.zeros(D.shape[0])
         # XXX - Alternatively, v1_onehot = np.identity(adjacency_matrix.shape[0])[v1] - Anmol
